@@ -24,14 +24,18 @@ CHECKER = "c09_checker"
 CASE_TYPE = "c09_case"
 SHARD = 150
 
-RULE = ("case = (tensor tree of depth 2-4 with int coordinates inside an authoritative shape, built from a "
-        "canonical tree by real mutations: getPayloadRef(point) <<= default for every explicit default, "
-        "clear() of a populated sub-fiber for every empty sub-fiber; leaf default; one operation: "
-        "swizzle(perm), swizzle then inverse, swap(depth), swap twice, flatten(depth, levels, tuple|pair|linear), "
-        "merge(depth, levels, absolute|relative), unflatten(flatten), flatten-absolute(splitUniform(step))); "
-        "observation = the result's raw coords/payloads tree (tuple coordinates keep their nesting, leaf boxing "
-        "checked) and len(Rank.getFibers()) of every rank, or the exception. distinct = distinct canonical JSON; "
-        "non-trivial = the operand has at least two stored points")
+RULE = ("case = (tensor tree of depth 2-4 with int coordinates inside the shape; leaf default 0, 3 or None (sentinel: "
+        "nothing is empty, stored zeros are ordinary values); the operand is built along one of four histories - "
+        "fromFiber of Fiber objects (shared builder: float / int-subclass values, two-stage builds around a read "
+        "battery, late default, re-assigned children), fromUncompressed, a tensor WITHOUT declared shape grown by "
+        "getPayloadRef/<<= in two stages with getShape() and the read battery in between (second stage = larger "
+        "coordinates), sub-trees appended from slices or deep copies of slices of a donor tensor - followed by real "
+        "mutations: getPayloadRef(point) <<= default for every explicit default, clear() of a populated sub-fiber "
+        "for every empty sub-fiber; one operation: swizzle(perm), swizzle then inverse, swap(depth), swap twice, "
+        "flatten(depth, levels, tuple|pair|linear), merge(depth, levels, absolute|relative), unflatten(flatten), "
+        "flatten-absolute(splitUniform(step))); observation = the result's raw coords/payloads tree (tuple "
+        "coordinates keep their nesting, leaf boxing checked) and len(Rank.getFibers()) of every rank, or the "
+        "exception. distinct = distinct canonical JSON; non-trivial = the operand has at least two stored points")
 TRUSTED = ["Coq 8.16.1 kernel (coqc; coqchk in the thorough tier); vm_compute used; native_compute not used",
            "Print Assumptions of every C09 theorem: Closed under the global context (no axioms)",
            "hand-written Gallina model coq/Model/C09Transform.v of the transforms, tied to the repository by "
@@ -177,14 +181,17 @@ def streams(tier, rng):
     yield ("all-params", cases, False)
     # flattening three levels of a depth-4 tensor that has empty sub-fibers at several levels
     cases = []
-    for _ in range(80 if tier == "quick" else 1500):
+    for _ in range(200 if tier == "quick" else 3000):
         shapes = [rng.randint(1, 3) for _ in range(4)]
-        t = U.gen_fiber(rng, 4, shapes, 0, p_absent=rng.choice([0.0, 0.2, 0.4]), p_zero=rng.choice([0.0, 0.3]),
-                        p_emptysub=rng.choice([0.2, 0.4, 0.6]))
-        base, muts = canon_and_muts(rng, t, 4, shapes, 0)
+        d = rng.choice([0, U.NONE_D])          # default None: stored zeros are ordinary values
+        t = U.gen_fiber(rng, 4, shapes, d, p_absent=rng.choice([0.0, 0.2, 0.4]),
+                        p_zero=0.0 if d == U.NONE_D else rng.choice([0.0, 0.3]),
+                        p_emptysub=rng.choice([0.2, 0.4, 0.6]), vals=(0, 1) if d == U.NONE_D else (1, 9))
+        base, muts = canon_and_muts(rng, t, 4, shapes, d)
         op = rng.choice([["flatten", 0, 3, "tuple"], ["flatten", 0, 3, "pair"], ["flatunflat", 0, 3, "tuple"],
-                         ["flatunflat", 0, 3, "pair"], ["flatten", 0, 3, "linear"], ["merge", 0, 3, "relative"]])
-        cases.append({"tree": t, "base": base, "muts": muts, "build": "fiber", "d": 0, "shape": shapes, "op": op})
+                         ["flatunflat", 0, 3, "pair"], ["flatten", 0, 3, "linear"]]
+                        + ([["merge", 0, 3, "relative"]] if d == 0 else [["flatten", 1, 2, "tuple"]]))
+        cases.append({"tree": t, "base": base, "muts": muts, "build": "fiber", "d": d, "shape": shapes, "op": op})
     yield ("deep-flatten-empties", cases, False)
     if tier == "thorough":
         # exhaustive small scope: depth 2, shape 2x2, per coordinate absent/default/value (leaf)
@@ -273,7 +280,7 @@ def dense(t, depth, shapes):
         return t
     m = {c: s for c, s in t}
     if depth == 1:
-        return [m.get(i, 0) for i in range(shapes[0])]
+        return [U.dress(m[i]) if i in m else 0 for i in range(shapes[0])]
     return [dense(m.get(i, []), depth - 1, shapes[1:]) for i in range(shapes[0])]
 
 
